@@ -1110,8 +1110,21 @@ func runPhased(f *Fixture, spec *PipeSpec, want int) *PipeResult {
 		}
 		var batch []byte
 		for k := 0; k < ph.Reqs && next < len(cs.Reqs); k++ {
+			if cs.PauseUs > 0 && ph.Reqs > 8 {
+				// one request per write, a moment apart
+				if err := c.Write(cs.Reqs[next].Encode()); err != nil {
+					res.Clients[0].WriteErr = err
+					break
+				}
+				time.Sleep(time.Duration(cs.PauseUs) * time.Microsecond)
+				next++
+				continue
+			}
 			batch = append(batch, cs.Reqs[next].Encode()...)
 			next++
+		}
+		if cs.PauseUs > 0 && ph.Reqs > 8 {
+			settle()
 		}
 		if len(batch) > 0 {
 			if err := c.Write(batch); err != nil {
